@@ -23,8 +23,9 @@ def _run(cmd, text, timeout):
         return f"error {e}"
 
 
-def fallback_prove(pctx, goal):
+def fallback_prove(pctx, goal, budget_s=None):
     """-> (status, backend, model_dict_or_None)"""
+    FALLBACK_TIMEOUT_S = budget_s or globals()["FALLBACK_TIMEOUT_S"]
     smt = pctx.smt2(z3.Not(goal))
     leaves = [n for n in pctx.leaf_order]
     getvals = ""
